@@ -1,7 +1,343 @@
 //! C13 monitors (V1-V4) and the Watcher actor.
-use bitcoin::Transaction;
-use crate::monitors::Produced;
+
+use std::collections::BTreeSet;
+
+use bitcoin::sighash::Prevouts;
+use bitcoin::{absolute, transaction, Sequence, Transaction, TxOut, Witness};
+use miniscript::interpreter::{HashLockType, Interpreter, KeySigPair, SatisfiedConstraint};
+use miniscript::policy::Liftable;
+
+use crate::gen::OutKind;
+use crate::mon_ref::{eval_policy, PolicyWorld};
+use crate::monitors::{exec_spend, guard, raise_class, Produced};
+use crate::rng::{fnv, mix, Rng};
 use crate::sim::World;
-use crate::vm::ExecTrace;
-pub fn check_interpreter_accepts(_w: &mut World, _actor: &str, _tx: &Transaction, _i: usize, _p: &Produced, _t: &ExecTrace) {}
-pub fn watcher(_w: &mut World, _tx: &Transaction, _tampered: u64) {}
+use crate::vm::{ExecTrace, Flags};
+use crate::wallet::{god_sat, lock_values};
+
+pub enum Verdict {
+    Accept(Vec<SatisfiedConstraint>),
+    Reject(String),
+}
+
+/// Run the library interpreter (real signature verification) on input `i` of `t`.
+pub fn interp_verdict(w: &mut World, actor: &str, t: &Transaction, i: usize) -> Option<Verdict> {
+    let env = w.env.clone();
+    let prevouts: Vec<TxOut> = env.inputs.iter().map(|x| x.utxo.clone()).collect();
+    let spk = env.inputs[i].spk.clone();
+    guard(w, "Interpreter", actor, |_| {
+        let interp = match Interpreter::from_txdata(&spk, &t.input[i].script_sig, &t.input[i].witness, t.input[i].sequence, t.lock_time) {
+            Ok(x) => x,
+            Err(e) => return Verdict::Reject(format!("from_txdata: {}", e)),
+        };
+        let pv = Prevouts::All(&prevouts);
+        let mut out = vec![];
+        for r in interp.iter(&env.secp, t, i, &pv) {
+            match r {
+                Ok(c) => out.push(c),
+                Err(e) => return Verdict::Reject(format!("iter: {}", e)),
+            }
+        }
+        Verdict::Accept(out)
+    })
+}
+
+fn key_sig_bytes(ks: &KeySigPair) -> (Vec<u8>, Vec<u8>) {
+    match ks {
+        KeySigPair::Ecdsa(pk, sig) => (pk.to_bytes(), sig.to_vec()),
+        KeySigPair::Schnorr(pk, sig) => (pk.serialize().to_vec(), sig.to_vec()),
+    }
+}
+
+pub fn check_interpreter_accepts(w: &mut World, actor: &str, tx: &Transaction, i: usize, p: &Produced, trace: &ExecTrace) {
+    let env = w.env.clone();
+    let sane = env.inputs[i].sane;
+    let kind = env.inputs[i].kind;
+    let text = env.inputs[i].spec.text.clone();
+    let mut t = tx.clone();
+    t.input[i].script_sig = p.ss.clone();
+    t.input[i].witness = Witness::from_slice(&p.wit);
+    let v = match interp_verdict(w, actor, &t, i) {
+        Some(v) => v,
+        None => return,
+    };
+    w.stats.oracle_calls += 1;
+    match v {
+        Verdict::Reject(e) => {
+            if sane {
+                raise_class(w, "C13", "V2", format!("V2:{:?}:{}", kind, p.label), format!("the interpreter rejects a satisfaction the library produced for a sane descriptor ({}): {} desc={}", p.label, e, text), actor);
+            } else {
+                w.stats.probe("v2_insane_rejected");
+            }
+        }
+        Verdict::Accept(cons) => {
+            w.stats.probe("v2_accepted");
+            // V3: attribution
+            let mut sigs: BTreeSet<(Vec<u8>, Vec<u8>)> = BTreeSet::new();
+            let mut pre: BTreeSet<Vec<u8>> = BTreeSet::new();
+            let mut abs: BTreeSet<u32> = BTreeSet::new();
+            let mut rel: BTreeSet<u32> = BTreeSet::new();
+            for c in &cons {
+                match c {
+                    SatisfiedConstraint::PublicKey { key_sig } => {
+                        sigs.insert(key_sig_bytes(key_sig));
+                    }
+                    SatisfiedConstraint::PublicKeyHash { key_sig, .. } => {
+                        sigs.insert(key_sig_bytes(key_sig));
+                    }
+                    SatisfiedConstraint::HashLock { preimage, hash } => {
+                        let _ = matches!(hash, HashLockType::Sha256(_));
+                        pre.insert(preimage.to_vec());
+                    }
+                    SatisfiedConstraint::AbsoluteTimelock { n } => {
+                        abs.insert(n.to_consensus_u32());
+                    }
+                    SatisfiedConstraint::RelativeTimelock { n } => {
+                        rel.insert(n.to_consensus_u32());
+                    }
+                }
+            }
+            let t_sigs: BTreeSet<(Vec<u8>, Vec<u8>)> = trace.sig_checks.iter().filter(|s| s.ok).map(|s| (s.pubkey.clone(), s.sig.clone())).collect();
+            let digests: BTreeSet<Vec<u8>> = env.uni.hashes.iter().map(|h| h.digest.clone()).collect();
+            let t_pre: BTreeSet<Vec<u8>> = trace.hash_checks.iter().filter(|h| h.preimage.len() == 32 && digests.contains(&h.digest)).map(|h| h.preimage.clone()).collect();
+            let t_abs: BTreeSet<u32> = trace.cltv.iter().map(|x| *x as u32).collect();
+            let t_rel: BTreeSet<u32> = trace.csv.iter().map(|x| *x as u32).collect();
+            let is_script = matches!(kind, OutKind::Wsh | OutKind::ShWsh | OutKind::ShMs | OutKind::TrScript | OutKind::Bare);
+            if is_script || !sigs.is_empty() {
+                let what = if sigs != t_sigs {
+                    Some("signatures")
+                } else if pre != t_pre {
+                    Some("hash preimages")
+                } else if abs != t_abs {
+                    Some("absolute time locks")
+                } else if rel != t_rel {
+                    Some("relative time locks")
+                } else {
+                    None
+                };
+                if let Some(what) = what {
+                    raise_class(
+                        w,
+                        "C13",
+                        "V3",
+                        format!("V3:{:?}:{}", kind, what),
+                        format!("the interpreter's satisfied constraints differ from what the executed path checked ({}): reported sigs={} preimages={} abs={:?} rel={:?}; executed sigs={} preimages={} abs={:?} rel={:?}; desc={}", what, sigs.len(), pre.len(), abs, rel, t_sigs.len(), t_pre.len(), t_abs, t_rel, text),
+                        actor,
+                    );
+                    return;
+                }
+            }
+            // V3b: the reported set satisfies the lifted policy (a taproot key-path spend checks the
+            // tweaked output key, which is not a key of the policy: skipped)
+            let key_path = matches!(kind, OutKind::TrKey | OutKind::TrScript) && p.wit.len() == 1;
+            if key_path {
+                w.stats.probe("v3b_key_path_skipped");
+            } else if let Some(Ok(pol)) = guard(w, "lift", actor, |_| env.inputs[i].desc.lift()) {
+                let by_pk = env.uni.key_by_pubkey();
+                let keys: BTreeSet<usize> = sigs.iter().filter_map(|(pk, _)| by_pk.get(pk).copied()).collect();
+                let pres: BTreeSet<usize> = env.uni.hashes.iter().filter(|h| pre.contains(&h.preimage.to_vec())).map(|h| h.id).collect();
+                let pw = PolicyWorld { env: &env, keys, preimages: &pres, lock_time: t.lock_time.to_consensus_u32(), sequence: t.input[i].sequence.0, version: t.version.0 };
+                if !eval_policy(&pol, &pw) {
+                    raise_class(w, "C13", "V3b", format!("V3b:{:?}", kind), format!("the constraints the interpreter reports do not satisfy the lifted policy {}: desc={}", pol, text), actor);
+                    return;
+                }
+            }
+            // V4: inferred descriptor has the same scriptPubKey
+            if !matches!(kind, OutKind::TrKey | OutKind::TrScript) {
+                let spk = env.inputs[i].spk.clone();
+                let r = guard(w, "inferred_descriptor", actor, |_| {
+                    Interpreter::from_txdata(&spk, &t.input[i].script_sig, &t.input[i].witness, t.input[i].sequence, t.lock_time).ok().map(|x| x.inferred_descriptor().map(|d| d.script_pubkey()))
+                });
+                match r {
+                    Some(Some(Ok(s))) => {
+                        if s != spk {
+                            raise_class(w, "C13", "V4", format!("V4:{:?}", kind), format!("inferred_descriptor has a different scriptPubKey: desc={}", text), actor);
+                        }
+                    }
+                    Some(Some(Err(_))) => w.stats.probe("v4_inferred_unparseable"),
+                    _ => {}
+                }
+            }
+        }
+    }
+}
+
+/// V1 on one candidate spend: interpreter accepts => R1 accepts under consensus rules.
+fn v1(w: &mut World, actor: &str, t: &Transaction, i: usize, how: &str) {
+    let env = w.env.clone();
+    let v = match interp_verdict(w, actor, t, i) {
+        Some(v) => v,
+        None => return,
+    };
+    w.stats.oracle_calls += 1;
+    let wit: Vec<Vec<u8>> = t.input[i].witness.iter().map(|x| x.to_vec()).collect();
+    let r1 = exec_spend(w, t, i, &wit, &t.input[i].script_sig, Flags::CONSENSUS);
+    let skel = crate::monitors::skeleton_hash(&env.inputs[i].spec.text);
+    w.stats.nontrivial_cases.insert(mix(&[skel, fnv(how.as_bytes()), t.lock_time.to_consensus_u32() as u64, t.input[i].sequence.0 as u64, r1.is_ok() as u64]));
+    match (v, r1) {
+        (Verdict::Accept(_), Err(e)) => {
+            let cause = if e == crate::vm::VmError::UnsatisfiedLocktime {
+                if t.version.0 < 2 {
+                    "csv-tx-version-1"
+                } else if t.input[i].sequence.0 == 0xFFFF_FFFF {
+                    "cltv-final-sequence"
+                } else {
+                    "other"
+                }
+            } else {
+                "-"
+            };
+            raise_class(
+                w,
+                "C13",
+                "V1",
+                format!("V1:{:?}:{}:{:?}:{}", e, cause, env.inputs[i].kind, how),
+                format!(
+                    "the interpreter accepts a spend that real script execution rejects ({:?}) [{}]: desc={} nLockTime={} nSequence={:#x} version={} scriptSig={:x} witness={:?}",
+                    e,
+                    how,
+                    env.inputs[i].spec.text,
+                    t.lock_time.to_consensus_u32(),
+                    t.input[i].sequence.0,
+                    t.version.0,
+                    t.input[i].script_sig,
+                    wit.iter().map(|x| crate::keys::hex_of(x)).collect::<Vec<_>>()
+                ),
+                actor,
+            );
+        }
+        (Verdict::Accept(_), Ok(_)) => w.stats.probe("v1_both_accept"),
+        (Verdict::Reject(_), Ok(_)) => w.stats.probe("v1_interp_stricter"),
+        (Verdict::Reject(_), Err(_)) => w.stats.probe("v1_both_reject"),
+    }
+}
+
+/// The Watcher: sees honest transactions, relay-tampered ones and clock-faulted ones.
+pub fn watcher(w: &mut World, tx: &Transaction, tampered: u64) {
+    let env = w.env.clone();
+    let n = tx.input.len();
+    for i in 0..n {
+        if env.inputs[i].foreign {
+            continue;
+        }
+        v1(w, "watcher", tx, i, "honest");
+        if !w.violations.is_empty() {
+            return;
+        }
+    }
+    let mut r = Rng::new(mix(&[env.run_seed, 0x77617463, w.stats.broadcasts, tampered]));
+    // relay-tampered: multi-element mutations of each input's witness / scriptSig
+    if tampered != 0 {
+        for i in 0..n {
+            if env.inputs[i].foreign {
+                continue;
+            }
+            let kind = env.inputs[i].kind;
+            let legacy = matches!(kind, OutKind::Bare | OutKind::Pkh | OutKind::ShMs);
+            let items: Vec<Vec<u8>> = if legacy { crate::vm::parse_pushes(tx.input[i].script_sig.as_bytes()).unwrap_or_default() } else { tx.input[i].witness.iter().map(|x| x.to_vec()).collect() };
+            if items.is_empty() {
+                continue;
+            }
+            let alphabet: Vec<Vec<u8>> = vec![vec![], vec![1], vec![2], vec![0; 32], vec![0x42; 32], vec![0x42; 33], vec![0x42; 64], vec![0x42; 72]];
+            for _ in 0..24 {
+                let mut it = items.clone();
+                for _ in 0..r.range(1, 3) {
+                    match r.below(4) {
+                        0 if it.len() > 1 => {
+                            let k = r.below(it.len() as u64) as usize;
+                            it.remove(k);
+                        }
+                        1 => {
+                            let k = r.below(it.len() as u64) as usize;
+                            let v = it[k].clone();
+                            it.insert(k, v);
+                        }
+                        2 if it.len() > 1 => {
+                            let a = r.below(it.len() as u64) as usize;
+                            let b = r.below(it.len() as u64) as usize;
+                            it.swap(a, b);
+                        }
+                        _ => {
+                            let k = r.below(it.len() as u64) as usize;
+                            it[k] = r.pick(&alphabet).clone();
+                        }
+                    }
+                }
+                let mut t = tx.clone();
+                if legacy {
+                    let mut b = vec![];
+                    for x in &it {
+                        crate::vm::push_data(&mut b, x);
+                    }
+                    t.input[i].script_sig = bitcoin::ScriptBuf::from_bytes(b);
+                } else {
+                    t.input[i].witness = Witness::from_slice(&it);
+                }
+                v1(w, "watcher", &t, i, "tampered");
+                if !w.violations.is_empty() {
+                    return;
+                }
+            }
+        }
+    }
+    // clock-faulted: lock fields chosen by a node with a wrong clock view, re-signed by every signer
+    clock_faulted(w, tx, &mut r);
+}
+
+pub fn clock_faulted(w: &mut World, tx: &Transaction, r: &mut Rng) {
+    let env = w.env.clone();
+    for i in 0..tx.input.len() {
+        if env.inputs[i].foreign {
+            continue;
+        }
+        let (afters, olders) = lock_values(&env.inputs[i].spec.text);
+        if afters.is_empty() && olders.is_empty() {
+            continue;
+        }
+        w.stats.probe("clock_faulted_cases");
+        let mut variants: Vec<(u32, u32, i32)> = vec![];
+        for a in &afters {
+            for lt in [a.saturating_sub(1), *a, a + 1, if *a < 500_000_000 { 1_600_000_000 } else { 1000 }] {
+                for seq in [0xFFFF_FFFEu32, 0xFFFF_FFFF] {
+                    variants.push((lt, seq, 2));
+                }
+            }
+        }
+        for o in &olders {
+            for seq in [o.saturating_sub(1), *o, o + 1, o ^ (1 << 22), o | (1 << 31), 0xFFFF_FFFF] {
+                for ver in [1, 2] {
+                    let lt = afters.first().copied().unwrap_or(0);
+                    variants.push((lt, seq, ver));
+                }
+            }
+        }
+        r.shuffle(&mut variants);
+        for (lt, seq, ver) in variants.into_iter().take(8) {
+            let mut t = tx.clone();
+            t.version = transaction::Version(ver);
+            t.lock_time = absolute::LockTime::from_consensus(lt);
+            t.input[i].sequence = Sequence(seq);
+            t.input[i].script_sig = bitcoin::ScriptBuf::new();
+            t.input[i].witness = Witness::new();
+            let hashes: Vec<usize> = env.uni.hashes.iter().map(|h| h.id).collect();
+            let mut sat = god_sat(&env, &t, i, &env.inputs[i].key_ids, &hashes, mix(&[env.run_seed, lt as u64, seq as u64]));
+            sat.lie_locks = true;
+            let desc = env.inputs[i].desc.clone();
+            // drop some signatures so that time-locked arms are actually chosen
+            if r.chance(1, 2) && !env.inputs[i].key_ids.is_empty() {
+                let k = *r.pick(&env.inputs[i].key_ids);
+                sat.ecdsa.remove(&k);
+                sat.tap_key.remove(&k);
+                sat.tap_script.retain(|(kk, _), _| *kk != k);
+            }
+            if let Some(Ok((wit, ss))) = guard(w, "get_satisfaction_mall(clock-faulted)", "watcher", |_| desc.get_satisfaction_mall(&sat)) {
+                t.input[i].script_sig = ss;
+                t.input[i].witness = Witness::from_slice(&wit);
+                v1(w, "watcher", &t, i, "clock-faulted");
+                if !w.violations.is_empty() {
+                    return;
+                }
+            }
+        }
+    }
+}
